@@ -606,6 +606,84 @@ func (t *tr) pkgMap(e ast.Expr) *types.Var {
 	return v
 }
 
+// pkgVarValue: a package-level variable that is initialised by an expression over translated functions and constants
+// and that no function of the loaded packages assigns to or takes the address of is read as its initialiser
+// (`var EOT = _MetaMessage(byteEndOfTrack, nil)`)
+func (t *tr) pkgVarValue(n ast.Node, v *types.Var) string {
+	var init ast.Expr
+	var pi *pkgInfo
+	for _, p := range t.l.cache {
+		if p.pkg != v.Pkg() {
+			continue
+		}
+		for _, f := range p.files {
+			for _, d := range f.Decls {
+				if gd, ok := d.(*ast.GenDecl); ok && gd.Tok == token.VAR {
+					for _, sp := range gd.Specs {
+						vs := sp.(*ast.ValueSpec)
+						for i, id := range vs.Names {
+							if p.info.Defs[id] == types.Object(v) && len(vs.Values) == len(vs.Names) {
+								init, pi = vs.Values[i], p
+							}
+						}
+					}
+				}
+			}
+		}
+	}
+	if init == nil {
+		t.fail(n, "package variable %s has no initialiser of its own", v.Name())
+	}
+	for _, p := range t.l.cache {
+		for _, f := range p.files {
+			ast.Inspect(f, func(m ast.Node) bool {
+				written := func(e ast.Expr) bool {
+					for {
+						switch x := e.(type) {
+						case *ast.Ident:
+							return p.info.Uses[x] == types.Object(v)
+						case *ast.SelectorExpr:
+							if p.info.Uses[x.Sel] == types.Object(v) {
+								return true
+							}
+							e = x.X
+						case *ast.IndexExpr:
+							e = x.X
+						case *ast.ParenExpr:
+							e = x.X
+						case *ast.StarExpr:
+							e = x.X
+						default:
+							return false
+						}
+					}
+				}
+				switch x := m.(type) {
+				case *ast.AssignStmt:
+					for _, l := range x.Lhs {
+						if written(l) {
+							t.fail(n, "package variable %s is assigned to (%s)", v.Name(), t.l.fset.Position(x.Pos()))
+						}
+					}
+				case *ast.IncDecStmt:
+					if written(x.X) {
+						t.fail(n, "package variable %s is assigned to", v.Name())
+					}
+				case *ast.UnaryExpr:
+					if x.Op == token.AND && written(x.X) {
+						t.fail(n, "the address of package variable %s is taken", v.Name())
+					}
+				}
+				return true
+			})
+		}
+	}
+	saved := t.p
+	t.p = pi
+	defer func() { t.p = saved }()
+	return t.atom(init)
+}
+
 func (t *tr) index(p *pkgInfo) {
 	for _, f := range p.files {
 		for _, d := range f.Decls {
@@ -1005,6 +1083,9 @@ func (t *tr) leanType(n ast.Node, ty types.Type) string {
 				t.addStruct(nm)
 				return t.structName(nm)
 			}
+			if _, ok := nm.Underlying().(*types.Slice); ok {
+				return t.leanType(n, nm) // `*Track` as a receiver: the slice itself, handed back when written
+			}
 		}
 	case *types.Interface:
 		if ty.String() == "error" {
@@ -1223,7 +1304,7 @@ func (t *tr) funcDecl(f *types.Func) string {
 		ret = strings.Join(rts, " × ")
 	}
 	if t.recvPtr {
-		rs := t.structName(recvNamed(sig.Recv().Type()))
+		rs := t.leanType(fd, sig.Recv().Type())
 		if len(rts) > 0 {
 			ret = rs + " × " + ret
 		} else {
@@ -1571,6 +1652,10 @@ func (t *tr) assignTo(sb *strings.Builder, lhs ast.Expr, val string, define bool
 		}
 		t.fail(n, "assignment to %s", exprString(lhs))
 	case *ast.StarExpr:
+		if id, ok := x.X.(*ast.Ident); ok && t.recv != nil && t.p.info.Uses[id] == types.Object(t.recv) {
+			fmt.Fprintf(sb, "%s%s := %s\n", ind, name(id.Name), val)
+			return
+		}
 		if id, ok := x.X.(*ast.Ident); ok {
 			if o := t.p.info.Uses[id]; o != nil && t.outObjs[o] {
 				fmt.Fprintf(sb, "%sif %s_nil = true then throw \"nil pointer dereference\"\n", ind, name(id.Name))
@@ -2372,6 +2457,9 @@ func (t *tr) expr(e ast.Expr) string {
 		if o := t.p.info.Uses[x]; o != nil && t.env[o] {
 			return "env." + name(x.Name)
 		}
+		if v, ok := t.p.info.Uses[x].(*types.Var); ok && v.Pkg() != nil && v.Parent() == v.Pkg().Scope() {
+			return t.pkgVarValue(e, v)
+		}
 		return name(x.Name)
 	case *ast.SelectorExpr:
 		if s, ok := t.p.info.Selections[x]; ok && s.Kind() == types.FieldVal {
@@ -2457,6 +2545,9 @@ func (t *tr) expr(e ast.Expr) string {
 		lt := t.p.info.Types[x.X].Type
 		return t.binary(e, x.Op, t.operand(x.X, x.Op), t.operand(x.Y, x.Op), tv.Type, t.p.info.Types[x.Y].Type) + func() string { _ = lt; return "" }()
 	case *ast.StarExpr:
+		if id, ok := x.X.(*ast.Ident); ok && t.recv != nil && t.p.info.Uses[id] == types.Object(t.recv) {
+			return name(id.Name) // the receiver of a pointer-receiver method is never nil in the translated subset's callers
+		}
 		if id, ok := x.X.(*ast.Ident); ok {
 			if o := t.p.info.Uses[id]; o != nil && t.outObjs[o] {
 				return fmt.Sprintf("(← (if %s_nil = true then throw \"nil pointer dereference\" else pure %s : Except String _))", name(id.Name), name(id.Name))
@@ -2739,6 +2830,22 @@ func (t *tr) callExpr(c *ast.CallExpr, tv types.TypeAndValue) string {
 	}
 	if sel0, ok := c.Fun.(*ast.SelectorExpr); ok {
 		if id, ok := sel0.X.(*ast.Ident); ok {
+			if pn, ok := t.p.info.Uses[id].(*types.PkgName); ok && pn.Imported().Path() == "reflect" && sel0.Sel.Name == "DeepEqual" && len(c.Args) == 2 {
+				// on two byte slices: equal length and content (a nil and an empty slice differ for DeepEqual: not modelled,
+				// sound where neither argument can be an empty non-nil slice)
+				isBytes := func(e ast.Expr) bool {
+					sl, ok := t.p.info.Types[e].Type.Underlying().(*types.Slice)
+					if !ok {
+						return false
+					}
+					b, ok := sl.Elem().Underlying().(*types.Basic)
+					return ok && b.Kind() == types.Uint8
+				}
+				if !isBytes(c.Args[0]) || !isBytes(c.Args[1]) {
+					t.fail(c, "reflect.DeepEqual on something else than two byte slices")
+				}
+				return fmt.Sprintf("decide (%s = %s)", t.atom(c.Args[0]), t.atom(c.Args[1]))
+			}
 			if tv0, ok := t.p.info.Types[id]; ok && isBytesBuffer(tv0.Type) {
 				switch sel0.Sel.Name {
 				case "Bytes":
